@@ -98,6 +98,7 @@ def worker_b_inputs(case: Dict[str, Any]) -> CaseResult:
 
 # ---- part C: colliding pairs ---------------------------------------------------------------------
 
+SHADOWING_NAMES = ["Field", "Optional", "List", "Any", "Union", "Literal", "Annotated", "BaseModel", "PairEnum"]
 PAIRS_SNAKE = [("userId", "user_id"), ("userID", "userId"), ("a1", "a_1"), ("URLValue", "urlValue"), ("fooBar", "foo_bar"), ("x", "X"), ("class", "class_"), ("_x", "x"), ("copy", "copy_")]
 PAIRS_NOSNAKE = [("class", "class_"), ("_x", "x"), ("copy", "copy_"), ("__a", "a"), ("from", "from_")]
 
@@ -159,6 +160,11 @@ def worker_c(case: Dict[str, Any]) -> CaseResult:
         def bad(clause, detail):
             # a "single" case pairs the name under test with an unrelated partner: nothing can be merged, so a failure is never the listed pair finding
             import re as _re
+            if case.get("single") and not snake and a in SHADOWING_NAMES and scope in ("input_fields", "object_fields", "response_keys"):
+                # the attribute takes the name of a helper that later lines of the same class body use (listed mechanism, same as a field named str)
+                violations.append(Violation(PROP, "single-" + clause, "scope %s, name %r, snake=%s: %s" % (scope, a, snake, detail), feats, replay_case,
+                                            mech="field-named-str-shadows-builtin-in-annotations"))
+                return
             if case.get("single") and _re.search(r"duplicate argument '(self|kwargs)'", detail):
                 violations.append(Violation(PROP, "single-" + clause, "scope %s, name %r, snake=%s: %s" % (scope, a, snake, detail), feats, replay_case,
                                             mech="variable-named-self-or-kwargs"))
@@ -279,6 +285,10 @@ def parts_b_c(r: core.Run, tier: str, seed: int) -> None:
             for scope in ("variables", "response_keys", "input_fields", "object_fields"):
                 ccases.append({"pair": [nm, "zzPartner"], "scope": scope, "snake": snake, "kind": "pair", "single": True})
 
+    for nm in SHADOWING_NAMES:
+        for scope in ("input_fields", "object_fields", "response_keys"):
+            for snake in (True, False):
+                ccases.append({"pair": [nm, "zzPartner"], "scope": scope, "snake": snake, "kind": "pair", "single": True})
     for snake in (True, False):
         for nm in ["match", "case", "type", "count", "title", "index", "class", "from", "None", "Self", "Query", "copy", "json", "lambda", "_x", "x_"]:
             ccases.append({"pair": [nm, "ZZ_PARTNER"], "scope": "enum_values", "snake": snake, "kind": "pair", "single": True})
